@@ -152,6 +152,8 @@ class FuncScan:
                     r = root_name(val.args[0])
                 if isinstance(val, ast.Call) and isinstance(val.func, ast.Name) and val.func.id == "getattr" and val.args:
                     r = root_name(val.args[0])      # getattr(f, "attr", default): (part of) the field object
+                if isinstance(val, (ast.ListComp, ast.SetComp, ast.GeneratorExp)):
+                    r = root_name(val.elt)          # options = [f for f in self.get_fields() if ..]
                 if isinstance(val, (ast.IfExp,)):
                     r = root_name(val.body)
                 if isinstance(val, ast.BinOp):
